@@ -10,7 +10,7 @@ ALL_OPS = ["add_constraint", "add_constraints", "refine_with_constraint", "refin
            "remove_higher_space_dimensions", "map_space_dimensions", "expand_space_dimension", "concatenate_assign",
            "poly_difference_assign", "time_elapse_assign", "fold_space_dimensions", "generalized_affine_image_lhs",
            "simplify_using_context_assign", "poly_hull_assign_if_exact", "refine_with_congruence", "add_congruence",
-           "refine_with_congruences", "generalized_affine_preimage_lhs"]
+           "refine_with_congruences", "generalized_affine_preimage_lhs", "positive_time_elapse_assign"]
 
 
 def owner(kind, line):
@@ -40,14 +40,20 @@ def run(chk):
         for (case, line, how) in out["crashes"]:
             chk.failure({"site": polycheck.op_of_line(line), "kind": "crash", "detail": how}, {"case": case, "line": line, "how": how})
         return
-    ncase = 260 if chk.quick else 4000
+    ncase = 760 if chk.quick else 8000
     maxdim = 3 if chk.quick else 3
     lines = []
     # per-operator streams, then mixed histories
-    per = 6 if chk.quick else 90
+    per = 6 if chk.quick else 60
     cid = 0
     for i, op in enumerate(ALL_OPS):
         ls = gen_poly.make_cases(chk.seed * 1000 + i, per, maxdim=maxdim, nobj=2, steps=3, ops=[op], pq=0.0, pobs=0.25, start=cid)
+        lines += ls; cid += per
+        # the same operator on receivers / arguments in the special states its code branches on
+        ls = gen_poly.make_cases(chk.seed * 1000 + 500 + i, per, maxdim=maxdim, nobj=2, steps=2, ops=[op], pq=0.0, pobs=0.15, start=cid, special=0.75)
+        lines += ls; cid += per
+        # generator-built operands whose points carry non-unit, different divisors
+        ls = gen_poly.make_cases(chk.seed * 1000 + 800 + i, per, maxdim=maxdim, nobj=2, steps=2, ops=[op], pq=0.0, pobs=0.15, start=cid, divbias=True)
         lines += ls; cid += per
     lines += gen_poly.make_cases(chk.seed * 7919 + 17, ncase - cid if ncase > cid else 50, maxdim=maxdim, nobj=3, steps=6, pq=0.1, pobs=0.2, start=cid)
     # corpus first
